@@ -394,16 +394,18 @@ def run_pipeline(case, variant, stop_at=None):
                     sched = Scheduler(archive, ems, result_archive=result, add_mode=case.get("add_mode", "batch"))
             dqd = any(e["kind"] in ("ga", "gop") for e in case["emitters"])
             blob = None
+            ck = case.get("ckpt", 0) % max(len(case["ops"]), 1)
+            mid = variant == "p" and case.get("ckpt_phase", 0) == 1  # checkpoint between ask() and tell()
             for it, op in enumerate(case["ops"]):
                 f = op[which]
-                if variant in ("p", "x") and it == case.get("ckpt", 0) % len(case["ops"]):
+                if variant in ("p", "x") and it == ck and not mid:
                     with obs.guard("pickle.dumps"):
                         blob = pickle.dumps(sched)
                     if variant == "x":
                         return obs, blob, it
                     with obs.guard("pickle.loads"):
                         sched = pickle.loads(blob)
-                    del archive, ems, result
+                    archive = ems = result = None
                 foreign(f[:3])
                 if dqd:
                     with obs.guard(f"ask_dqd[{it}]"):
@@ -418,6 +420,12 @@ def run_pipeline(case, variant, stop_at=None):
                     sols = sched.ask()
                 obs.put(f"ask[{it}]", sols)
                 obj, meas = evaluate(sols)
+                if mid and it == ck:
+                    with obs.guard("pickle.dumps"):
+                        blob = pickle.dumps(sched)
+                    with obs.guard("pickle.loads"):
+                        sched = pickle.loads(blob)
+                    archive = ems = result = None
                 foreign((f[3], f[4], None))
                 with obs.guard(f"tell[{it}]"):
                     sched.tell(obj, meas)
@@ -557,8 +565,10 @@ def run_case(case, ctx=None):
             return Failure("oracle", f"global random state disturbed by {op.disturbed} (pickled run) :: {what}")
         d = first_diff(oa, op)
         if d is not None:
-            return Failure("oracle", f"run pickled before iteration {case.get('ckpt', 0) % len(case['ops'])} does "
-                                     f"not continue like the uninterrupted run: {d} :: {what}", detail=d.values)
+            where = ("between ask and tell of" if case.get("ckpt_phase", 0) == 1 else "before") + \
+                f" iteration {case.get('ckpt', 0) % len(case['ops'])}"
+            return Failure("oracle", f"run pickled {where} does not continue like the uninterrupted run: {d} "
+                                     f":: {what}", detail=d.values)
         cnt("ii:pickle-continuation-identical")
         if fresh_process:
             f = fresh_process_resume(case, oa)
@@ -667,6 +677,7 @@ def base_case(rng, n_iter):
     return {
         "glob": [[rng.randrange(2**31), rng.randrange(2**31)], [rng.randrange(2**31), rng.randrange(2**31)]],
         "ckpt": rng.randrange(n_iter),
+        "ckpt_phase": rng.choice([0, 0, 1]),
         "change": rng.randrange(4),
         "ops": gen_foreign(rng, n_iter),
         "result_archive": False,
@@ -748,9 +759,11 @@ def strata(ctx):
     cyc_mixed = Cycle(ctx, "mixed", [(s, am, ra) for s in ("plain", "bandit") for am in ("batch", "single")
                                      for ra in (False, True)])
 
+    L = 1 if ctx.quick else 3  # thorough: histories up to three times as long (restarts, remaps, resizes)
+
     def g_archives(rng):
         kind, method, ss = cyc_arch.next(rng)
-        n_iter = rng.randint(2, 4)
+        n_iter = rng.randint(2, 4 * L)
         c = base_case(rng, n_iter)
         c["archive"] = archive_spec(rng, kind, method, ss)
         c["emitters"] = [simple_emitter(rng) for _ in range(rng.randint(1, 2))]
@@ -761,7 +774,7 @@ def strata(ctx):
 
     def g_es(rng):
         es, ranker = cyc_es.next(rng)
-        n_iter = rng.randint(3, 6)
+        n_iter = rng.randint(3, 6 * L)
         c = base_case(rng, n_iter)
         c["archive"] = archive_spec(rng, rng.choice(["grid", "grid", "cvt", "sliding", "proximity"]))
         c["emitters"] = [es_emitter(rng, c["archive"]["kind"], es, ranker)]
@@ -774,7 +787,7 @@ def strata(ctx):
 
     def g_dqd(rng):
         kind, es, ranker = cyc_dqd.next(rng)
-        n_iter = rng.randint(3, 5)
+        n_iter = rng.randint(3, 5 * L)
         c = base_case(rng, n_iter)
         c["archive"] = archive_spec(rng, rng.choice(["grid", "grid", "cvt"]))
         if kind == "ga":
@@ -788,7 +801,7 @@ def strata(ctx):
 
     def g_mixed(rng):
         sched, add_mode, ra = cyc_mixed.next(rng)
-        n_iter = rng.randint(4, 8)
+        n_iter = rng.randint(4, 8 * L)
         c = base_case(rng, n_iter)
         c["archive"] = archive_spec(rng)
         k = c["archive"]["kind"]
@@ -897,13 +910,13 @@ def run(ctx):
         ctx.notes.append(f"proof obligation broken by the generated table ({len(bad)} site(s) not seeded, "
                          f"{len(getattr(ctx, 'c09_bad_spawns', []))} spawn(s) not separated): searching for a "
                          f"concrete failing input, strata order {order}")
-    plan = {
-        "archives": (ctx.n(16, 400), 10 if ctx.quick else 120),
-        "es": (ctx.n(12, 600), 9 if ctx.quick else 180),
-        "dqd": (ctx.n(6, 300), 5 if ctx.quick else 100),
-        "mixed": (ctx.n(6, 400), 5 if ctx.quick else 120),
+    plan = {  # stratum -> (cases, time budget in s)
+        "archives": (ctx.n(16, 700), 10 if ctx.quick else 120),
+        "es": (ctx.n(12, 1000), 9 if ctx.quick else 200),
+        "dqd": (ctx.n(6, 500), 5 if ctx.quick else 90),
+        "mixed": (ctx.n(6, 700), 5 if ctx.quick else 110),
     }
-    n_fresh = [ctx.n(1, 24)]
+    n_fresh = [ctx.n(1, 40)]
     seen_sigs = {}
 
     def case_id(case):
